@@ -91,6 +91,10 @@ def _cases(draw, tier):
         case["end"] = (T0 + draw(st.integers(1, 5))) * 1000
     # the window may be given as naive datetimes, which are documented to mean UTC (the checks run in another time zone)
     case["naive"] = draw(st.booleans())
+    # how the mirror is built: the class, or the command line (drf mirror cp|mv|ln SRC DEST ...); `--link` / link=True with
+    # the copy method means "hard links where possible" - for content and completeness the same as copying
+    case["ctor"] = draw(st.sampled_from(["api", "api", "cli"]))
+    case["linkflag"] = case["method"] == "copy" and draw(st.booleans())
     return case
 
 
@@ -337,8 +341,30 @@ def _run(case, res, base, stage, src, dest, ev, drf, list_drf, mirror):
         end = None if end is None else end.replace(tzinfo=None)
     with wrapped(world) as active:
         with contextlib.redirect_stdout(io.StringIO()):
-            mir = mirror.DigitalRFMirror(src, dest, method=case["method"], starttime=start, endtime=end,
-                                         include_drf=case["include_drf"], include_dmd=case["include_dmd"])
+            if case.get("ctor") == "cli":
+                from digital_rf import drf_command
+                argv = ["mirror", {"copy": "cp", "move": "mv", "link": "ln"}[case["method"]], src, dest]
+                for flag, ms in (("-s", case["start"]), ("-e", case["end"])):
+                    if ms is not None:
+                        argv += [flag, "%d.%03d" % (ms // 1000, ms % 1000)]
+                if not case["include_drf"]:
+                    argv.append("--nodrf")
+                if not case["include_dmd"]:
+                    argv.append("--nodmd")
+                if case.get("linkflag"):
+                    argv.append("--link")
+                got_ = []
+                real_run = mirror.DigitalRFMirror.run
+                mirror.DigitalRFMirror.run = lambda self_: got_.append(self_)
+                try:
+                    drf_command.main(argv)
+                finally:
+                    mirror.DigitalRFMirror.run = real_run
+                mir = got_[0]
+            else:
+                mir = mirror.DigitalRFMirror(src, dest, method=case["method"], starttime=start, endtime=end,
+                                             include_drf=case["include_drf"], include_dmd=case["include_dmd"],
+                                             **({"link": True} if case.get("linkflag") else {}))
         handlers = mir.event_handlers
         processed = set()  # relpaths whose (latest) events reached the mirror
         history = []  # final-name relpaths reported so far
